@@ -100,6 +100,8 @@ func ratEq(f float64, r *big.Rat) bool {
 
 const tol20 = 1.0 / (1 << 20)
 
+var scaledArcs, unscaledArcs int // arcs judged, by whether F.6.6 scaled the radii
+
 func near(a, b, tol float64) bool { return math.Abs(a-b) <= tol*math.Max(1, math.Abs(b)) }
 
 // cmpMode selects what the walker demands.
@@ -312,7 +314,11 @@ func arcCenter(x1, y1, rx, ry, phiDeg float64, large, sweep bool, x2, y2 float64
 	x1p, y1p := c*dx+s*dy, -s*dx+c*dy
 	lam := x1p*x1p/(rx*rx) + y1p*y1p/(ry*ry)
 	if lam > 1 {
+		// F.6.6: radii too small for the chord: both are scaled by sqrt(lambda); centre AND curve use them
 		rx, ry = math.Sqrt(lam)*rx, math.Sqrt(lam)*ry
+		scaledArcs++
+	} else {
+		unscaledArcs++
 	}
 	num := rx*rx*ry*ry - rx*rx*y1p*y1p - ry*ry*x1p*x1p
 	den := rx*rx*y1p*y1p + ry*ry*x1p*x1p
